@@ -144,7 +144,7 @@ fn typed_list(r: &mut Rng, op: &str, len: usize) -> Vec<RVal> {
 }
 
 fn part_broadcast(ctx: &Ctx, sink: &mut Sink) {
-    let n = ctx.budget(120_000, 2_000_000);
+    let n = ctx.budget(120_000, 40_000_000);
     let sess = Sess::new();
     for i in 0..n {
         if !ctx.mine(i) {
@@ -210,7 +210,7 @@ fn part_broadcast(ctx: &Ctx, sink: &mut Sink) {
         }
     }
     // dot comparisons never broadcast: one boolean equal to the C12 relation
-    let n2 = ctx.budget(15_000, 200_000);
+    let n2 = ctx.budget(15_000, 4_000_000);
     for i in 0..n2 {
         if !ctx.mine(i) {
             continue;
@@ -284,7 +284,7 @@ fn same_result(a: &RVal, b: &RVal) -> bool {
 }
 
 fn part_alias(ctx: &Ctx, sink: &mut Sink) {
-    let n = ctx.budget(40_000, 600_000);
+    let n = ctx.budget(40_000, 12_000_000);
     let sess = Sess::new();
     let all_ops: Vec<&str> = OPS.iter().copied().collect();
     for i in 0..n {
